@@ -117,6 +117,27 @@ class Ref:
         return "Ref(%s)" % self.addr
 
 
+def memo_at(f):
+    """Element closures are pure: cache per index term (nested closures are otherwise re-evaluated
+    exponentially often)."""
+    if getattr(f, "_memo", False):
+        return f
+    cache = {}
+
+    def g(k):
+        key = ("i", k) if isinstance(k, int) and not isinstance(k, bool) else (("z", k.get_id()) if is_z3(k) else None)
+        if key is None:
+            return f(k)
+        hit = cache.get(key)
+        if hit is not None:
+            return hit[1]
+        v = f(k)
+        cache[key] = (k, v)      # keep k alive so that its ast id is not reused
+        return v
+    g._memo = True
+    return g
+
+
 class Vec:
     """1-D array / Series: length + element closure (+ index token for Series).
 
@@ -130,7 +151,7 @@ class Vec:
 
     def __init__(self, n, at, idx=None, elt=None, ro=False, kind="array"):
         self.n = n
-        self.at = at
+        self.at = memo_at(at)
         self.idx = idx
         self.elt = elt
         self.ro = ro
@@ -151,7 +172,7 @@ class Tab:
 
     def __init__(self, n, cols, idx, elts=None):
         self.n = n
-        self.cols = dict(cols)
+        self.cols = {c: memo_at(f) for c, f in dict(cols).items()}
         self.idx = idx
         self.elts = dict(elts or {})
 
@@ -302,11 +323,23 @@ def atom_const(sort, s):
     return d[s]
 
 
+def str_to_atom(sort, t):
+    """A String-sorted term built from literals and ite (e.g. `"chrX" if c else "X"`) as an atom term."""
+    if isinstance(t, str):
+        return atom_const(sort, t)
+    if is_z3(t) and t.sort() == S:
+        if z3.is_string_value(t):
+            return atom_const(sort, t.as_string())
+        if z3.is_app(t) and t.decl().kind() == z3.Z3_OP_ITE:
+            return z3.If(t.arg(0), str_to_atom(sort, t.arg(1)), str_to_atom(sort, t.arg(2)))
+    raise Unsupported("comparison of a name atom with a computed string")
+
+
 def atom_pair(a, b):
-    if is_atom(a) and isinstance(b, str):
-        return a, atom_const(a.sort(), b)
-    if is_atom(b) and isinstance(a, str):
-        return atom_const(b.sort(), a), b
+    if is_atom(a) and (isinstance(b, str) or (is_z3(b) and b.sort() == S)):
+        return a, str_to_atom(a.sort(), b)
+    if is_atom(b) and (isinstance(a, str) or (is_z3(a) and a.sort() == S)):
+        return str_to_atom(b.sort(), a), b
     return a, b
 
 
@@ -342,7 +375,7 @@ def z3eq(a, b):
     if za.sort() != zb.sort():
         if za.sort() in (I, R, B) and zb.sort() in (I, R, B) and S not in (za.sort(), zb.sort()):
             return to_real(za) == to_real(zb)
-        return z3.BoolVal(False)
+        raise Unsupported("equality between sorts %s and %s" % (za.sort(), zb.sort()))
     return za == zb
 
 
